@@ -620,9 +620,23 @@ func c15Schema(steps []string, edges map[string][]string, extraDeclared []string
 	for _, s := range extraDeclared {
 		root.F = append(root.F, mkStep(s, nil))
 	}
+	// the order in which the root fields are declared in the schema text
+	switch n := len(root.F); c15Order {
+	case 1: // the steps first, input and variables last
+		root.F = append(append([]*CField{}, root.F[2:]...), root.F[0], root.F[1])
+	case 2: // everything reversed
+		for i := 0; i < n/2; i++ {
+			root.F[i], root.F[n-1-i] = root.F[n-1-i], root.F[i]
+		}
+	case 3: // rotated by three
+		root.F = append(append([]*CField{}, root.F[3%n:]...), root.F[:3%n]...)
+	}
 	g := &cueGen{}
 	return root, cueSchemaText(g, root)
 }
+
+// c15Order: the order of declaration (0: input, variables, the steps, the merely declared ones)
+var c15Order = 0
 
 // c15Forms: how a step is declared (mark and quoting) when it is not a plain regular field
 var c15Forms = map[string]*CField{}
@@ -633,8 +647,12 @@ func c15Queries(target string) [][2]string {
 		{"filter", "$.input.items[@.v.Equal($." + target + ".name)]"},
 		{"arg", "$.input.name.Equal($." + target + ".name)"},
 		{"group", "{OR,$.input.ok,{AND,$." + target + ".ok}}"},
+		{"mark", "$." + target + "?.name"},
+		{"mark-arg", "$.input.name.Equal($." + target + "?.name?)"},
 	}
 }
+
+var c15Calls = 0
 
 func (c *Ctx) c15Check(root *CTy, txt string, all []string, cp, target, cls string, positions bool) {
 	allowed, selfReach, errored := specAllowed(root, cp)
@@ -643,7 +661,16 @@ func (c *Ctx) c15Check(root *CTy, txt string, all []string, cp, target, cls stri
 	unspec := false
 	_ = selfReach
 	qs := c15Queries(target)
-	if !positions {
+	c15Calls++
+	switch {
+	case strings.Contains(target, "-"):
+		qs = qs[:4]
+		if !positions {
+			qs = qs[:1]
+		}
+	case !positions && c15Calls%3 == 0:
+		qs = [][2]string{qs[0], qs[4]} // the root field written with its `?` mark
+	case !positions:
 		qs = qs[:1]
 	}
 	for _, pq := range qs {
@@ -651,7 +678,7 @@ func (c *Ctx) c15Check(root *CTy, txt string, all []string, cp, target, cls stri
 		expect := "REJ"
 		if expectOK {
 			switch pos {
-			case "":
+			case "", "mark":
 				expect = "ACC String Single"
 			case "filter":
 				expect = "ACC Object Array"
@@ -689,7 +716,7 @@ func (c *Ctx) c15Check(root *CTy, txt string, all []string, cp, target, cls stri
 }
 
 func genC15(c *Ctx) {
-	c.Rule = "dependency graphs over k steps (every subset of the k*k edges, self-loops and cycles included): all graphs over 3 steps in the quick tier (2^9) and all over 4 steps in the thorough tier (2^16; the quick tier samples 1500 of them), each x every current step x every root field as target (steps, a merely declared step, input, variables), the target read at the head of the path; for a sample also inside a filter, a function argument and a nested group; plus random graphs of up to 12 steps (chains, diamonds, fan-in, dangling names). Oracle: accepted iff the target is a base path or in the transitive closure of the current step's _dependencies, and is not the current step itself (unless input); the fields offered at the root are exactly the non-blocked ones; a dependency naming an undeclared step yields an error result; every call returns within the watchdog. distinct = distinct (class, verdict)"
+	c.Rule = "dependency graphs over k steps (every subset of the k*k edges, self-loops and cycles included): all graphs over 3 steps in the quick tier (2^9) and all over 4 steps in the thorough tier (2^16; the quick tier samples 1500 of them), each x every current step x every root field as target (steps, a merely declared step, input, variables), the target read at the head of the path; for a sample also inside a filter, a function argument and a nested group, and with the root field written with its `?` mark (`$.s1?.name`, also inside an argument); the 3-step graphs again with the root fields declared in three other orders (steps before input, reversed, rotated); plus random graphs of up to 12 steps (chains, diamonds, fan-in, dangling names). Oracle: accepted iff the target is a base path or in the transitive closure of the current step's _dependencies, and is not the current step itself (unless input); the fields offered at the root are exactly the non-blocked ones; a dependency naming an undeclared step yields an error result; every call returns within the watchdog. distinct = distinct (class, verdict)"
 	run := func(k int, mask uint64, cls string, positions bool) {
 		var steps []string
 		for i := 0; i < k; i++ {
@@ -751,6 +778,17 @@ func genC15(c *Ctx) {
 		}
 		c15Forms = map[string]*CField{}
 	}
+	// the same graphs with the root fields declared in other orders (steps before input, reversed, rotated)
+	for ord := 1; ord <= 3; ord++ {
+		c15Order = ord
+		for m := uint64(0); m < 1<<9; m++ {
+			if !c.thorough() && m%8 != uint64(ord) {
+				continue
+			}
+			run(3, m, fmt.Sprintf("declaration-order-%d/3-steps", ord), m%64 == uint64(ord))
+		}
+	}
+	c15Order = 0
 	// the property's own example: x->[b,c], b->[a], a->[a0]
 	{
 		steps := []string{"x", "b", "c", "a", "a0"}
